@@ -209,6 +209,10 @@ def stampAt [OfNat τ 0] (P : τ) : Nat → τ
 
 def stamps [OfNat τ 0] (P : τ) (n : Nat) : List τ := (List.range n).map (stampAt P)
 
+/-- the stamps an instance sees that is started at tick `s` and runs for `n` ticks (an auxiliary framer
+or a clone is entered when its main frame is entered, not necessarily at tick 0) -/
+def stampsFrom [OfNat τ 0] (P : τ) (s n : Nat) : List τ := (stamps P (s + n)).drop s
+
 end generic
 
 end Ioflo.FloClock
